@@ -120,6 +120,9 @@ def fixed_scenarios(seed):
                     diseases=[dict(type='ebola', init_prev=0.3, log=True, beta=dict(kind='scalar', v=0.5, tp=False)),
                               dict(type='syphilis', init_prev=0.3, log=True, beta=dict(kind='dict', entries={'STATIC': [_b(0), _b(0.9)], 'random': _b(0.3)}))],
                     rel=None))
+    # 7. age-band pools (AgeGroup objects of every cache setting, separate and shared) over births, deaths and fast ageing
+    from harness.props import c12_groups
+    out.append(c12_groups.ageband_cfg(s, 0))
     return out
 
 
